@@ -878,4 +878,14 @@ func (p *AssignFaults) Act(e *Env) {
 	if e.Ch.Bool("tss.assignfault.panic", 400) {
 		e.W.FailAssignPanic[e.W.Height+1] = true
 	}
+	if src := []string{"", "", ".safeCreateSigning(", "keeper.Keeper.SendPacket(", ".HandleSigningEndBlock(", "baseapp.(*BaseApp).runTx("}[e.Ch.Intn("tss.assignfault.src", 6)]; src != "" {
+		// a source-aimed fault stays armed for a stretch of blocks: the first creation from that source in each of them fails
+		for h := e.W.Height + 1; h <= e.W.Height+8; h++ {
+			e.W.FailAssignSrc[h] = src
+			e.W.FailAssign[h] = 1
+			if e.W.FailAssignPanic[e.W.Height+1] {
+				e.W.FailAssignPanic[h] = true
+			}
+		}
+	}
 }
